@@ -1,7 +1,9 @@
 (* C08 — no datagram sequence can crash or wedge a serving worker. Statements only. *)
 Require Import RV.Model.Bytes RV.Gen.Tables RV.Model.Merkle RV.Model.Keys RV.Model.Server
         RV.Spec.MerkleGoals RV.Spec.ServerGoals.
-Require Import RV.Proofs.RequestFacts RV.Proofs.ServerFacts.
+Require Import RV.Proofs.RequestFacts RV.Proofs.ServerFacts RV.Proofs.SitesFacts.
+Require Import RV.Gen.Sites RV.Model.SiteMap.
+From Coq Require Import List String.
 Local Open Scope N_scope.
 
 (* For every queue of datagrams, every log level (the debug! argument nonce[0..4] is evaluated
@@ -42,3 +44,10 @@ Proof.
   exists s1. eexists. exists s2, lg2. split; [exact E1|exact E2].
 Qed.
 Print Assumptions C08_still_serves.
+
+(* the model has the panics the code has: every panic-capable expression (unwrap, expect, assert,
+   panic!, range slice) in today's scan of the modelled files is in the reviewed site map *)
+Theorem C08_panic_sites_reviewed :
+  forall s, In s panic_sites -> exists note, In (s, note) panic_site_map.
+Proof. exact panic_sites_covered. Qed.
+Print Assumptions C08_panic_sites_reviewed.
